@@ -42,6 +42,21 @@ def gen_arrays(ctx):
         if ctx.rng.random() < 0.5:
             m = sorted(m)
         out.append(np.array(m))
+    # a row sandwiched between two copies of another row, values spread over a wide range: any sort on a lossy
+    # (hashed / truncated / summed) key fails to bring the copies together for some such pair
+    for _ in range(ctx.n(6000, 60000)):
+        c = 2 if ctx.rng.random() < 0.8 else 3
+        a = [ctx.rng.randint(-40, 40) for _ in range(c)]; b = [ctx.rng.randint(-40, 40) for _ in range(c)]
+        rowsl = [a, b, a] if ctx.rng.random() < 0.7 else [a, b, b, a]
+        out.append(np.array(rowsl))
+    # the same raw bytes read with another integer type / width (successive calls must not confuse them)
+    for _ in range(ctx.n(40, 400)):
+        r = ctx.rng.randint(2, 5); c = ctx.rng.randint(1, 3)
+        base = np.array([[ctx.rng.randint(-3, 300) for _ in range(c)] for _ in range(r)], dtype=np.int64)
+        base[ctx.rng.randrange(r)] = base[0]
+        for dt in (np.int64, np.int32, np.uint64, np.int16, np.uint16, np.int8, np.uint8):
+            v = base.view(dt)
+            out.append(v if ctx.rng.random() < 0.5 else v.copy())
     # wide rows (the joined text of a row is far longer than a terminal line)
     for w in ([38, 45, 80] + ([1100] if ctx.rng.random() < 0.5 or ctx.thorough() else [])):
         row = [ctx.rng.randint(0, 9) if w < 100 else ctx.rng.randint(10000, 99999) for _ in range(w)]
